@@ -424,7 +424,24 @@ func Run(args []string) int {
 	racy := fs.Bool("racy", false, "do not wait for acknowledgements (judge only)")
 	big := fs.Int("bigfirst", 0, "size of the start-up batch (large clusters); 0 = small random")
 	viaRec := fs.Bool("reconciler", false, "deliver events through the real controller.Reconciler (upserts and deletes)")
+	delivery := fs.Bool("delivery", false, "delivery stream: real Reconcilers parked behind a stalled loop start-up (see delivery.go)")
+	long := fs.String("long", "", "delivery: comma-separated stalls (ms) of the long cases, run concurrently with the others")
+	maxStall := fs.Int("maxstall", 300, "delivery: maximal stall (ms) of the ordinary cases")
+	prepare := fs.Bool("prepare", false, "prepare stream: real FirstEventBatchPreparerImpl over a fake reader (see delivery.go)")
+	maxLists := fs.Int("maxlists", 2, "prepare: number of lists enumerated exhaustively")
 	_ = fs.Parse(args)
+	if *delivery {
+		var ls []int
+		for _, f := range strings.Split(*long, ",") {
+			if v, err := strconv.Atoi(f); err == nil {
+				ls = append(ls, v)
+			}
+		}
+		return runDelivery(*seed, *n, ls, *maxStall)
+	}
+	if *prepare {
+		return runPrepare(*seed, *maxLists, *n)
+	}
 	r := rng.New(*seed)
 	w := bufio.NewWriter(os.Stdout)
 	defer w.Flush()
